@@ -4197,7 +4197,7 @@ def qr(a, mode='reduced', inner_labels=[None, None], cutoff=None, pos_diag_R=Fal
     a_leg0 = a.legs[0]
     inner_leg_mask = np.zeros(a_leg0.ind_len, dtype=np.bool_)
     for qindices, block in zip(a._qdata, a._data):  # non-zero blocks on the diagonal
-        if cutoff is None:
+        if cutoff is None or mode == 'complete':  # the cutoff can only reduce K of the 'reduced' mode
             q_block, r_block = np.linalg.qr(block, mode)
         else:
             q_block, r_block = qr_li(block, cutoff)
